@@ -6,7 +6,7 @@ SEPS = [' ', ' ', '  ', '\n', '\t', ' /* c */ ', ' // c\n', '\n\n', ' /* a\n b *
         # every way a block comment can be spelled around its delimiters: stars and slashes next to them, nothing inside, doc / banner style, text that looks like code
         ' /** doc **/ ', '/**/', ' /***/ ', ' /*********/ ', ' /* a * b */ ', ' /* a / b */ ', ' /*/ x */ ', ' /* x /*/ ', ' /* // */ ', ' /* int z9 ; */ ', ' /* E X P */ ', ' /*\n*\n*/ ',
         ' // /* c\n', ' //\n', ' \\\n ', '\r\n']
-BLOCK = re.compile(r'(<(declaration|parameter|system|label[^>]*)>)(.*?)(</(?:declaration|parameter|system|label)>)', re.S)
+BLOCK = re.compile(r'(<(declaration|parameter|instantiation|system|label[^>]*)>)(.*?)(</(?:declaration|parameter|instantiation|system|label)>)', re.S)
 UNESC = lambda t: t.replace('&lt;', '<').replace('&gt;', '>').replace('&amp;', '&')
 ESC = docgen.XESC
 KEYWORDS = set('''int bool clock chan const urgent broadcast meta hybrid void struct typedef return if else while do for true false forall exists sum and or not imply system process state init trans select guard
